@@ -4,7 +4,7 @@ c11_tie = importlib.util.module_from_spec(_spec); _spec.loader.exec_module(c11_t
 T = "GeomV.C11."
 CFG = {
     "id": "C11",
-    "lean_modules": ["GeomV.C11.Proofs", "GeomV.C11.ProofsArith"] + c11_tie.C11_TIES,
+    "lean_modules": ["GeomV.C11.Proofs", "GeomV.C11.ProofsArith", "GeomV.C11.ProofsFill"] + c11_tie.C11_TIES,
     "exe": "geomv_c11",
     "go_cmd": "c11",
     "stages": ["go:gen", "go:impl", "lean:judge"],
@@ -14,6 +14,8 @@ CFG = {
         "C11_search_reachable", "C11_goHeur_inRange",
         # phase 3: the heuristics under ANY interpretation of the float arithmetic (rounding, overflow, NaN)
         "C11_anyArith_inRange", "C11_heurA_rat", "C11_reachable_anyArith", "C11_chooseNode_old_defect", "C11_chooseEntryOld_eq_new_rat",
+        # phase 3: what holds of the minimum fill; sharpness of the parameter hypotheses (NewTree validates nothing)
+        "C11_fill", "C11_fill_reachable", "C11_minfill_not_invariant", "C11_maxC_ge2_needed", "C11_minC_ge1_needed",
         # T1: definitions regenerated from index/rtree/{geom,rtree}.go of the tree under test = the model's
         "C11_tie_size", "C11_tie_margin", "C11_tie_containsPoint", "C11_tie_containsRect", "C11_tie_intersect",
         "C11_tie_enlarge", "C11_tie_initBoundingBox", "C11_tie_boundingBox", "C11_tie_computeBoundingBox",
